@@ -20,9 +20,15 @@ RULE = (
     "Sub-check large_batches: the same oracle with 33..2050 batch rows / observation rows (size classes around and beyond "
     "the block sizes 128 / 1024 of chunked evaluation), coordinates from a seeded lattice."
 )
-ASSUMPTIONS = ["tolerance 1e-9*(1+scale) in x64",
+ASSUMPTIONS = ["tolerance 1e-9*(1+scale) in x64, 1e-3*(1+scale) in the 32-bit variant",
                "normalisation combined with a per-sample parameter batch is outside the domain (DESIGN 2.5)"]
 TOL = 1e-9
+
+
+def _tol():
+    import jax
+
+    return TOL if jax.config.jax_enable_x64 else 1e-3
 TERMS = {"ic": "initial_condition", "norm": "norm_loss", "obs": "observations"}
 
 
@@ -42,7 +48,7 @@ def run_case(case):
         seen += 1
         got = float(terms[name])
         w = want[name]
-        if not abs(got - w) <= TOL * (1 + abs(w) + abs(got)):
+        if not abs(got - w) <= _tol() * (1 + abs(w) + abs(got)):
             sub = ""
             if short == "obs":
                 sub = ":observed-params" if spec["obs"].get("eq_params") else ":plain"
@@ -102,6 +108,10 @@ def subchecks():
                  counts={"quick": 200, "thorough": 4000}, shards={"quick": 8, "thorough": 16}, clear_every=60,
                  min_nontrivial_frac=0.3,
                  doc="initial-condition / normalisation / observation terms vs numpy loops written from the statement"),
+        SubCheck(name="ic_norm_obs_vs_reference_f32", mode="given", strategy=strat, run_case=run_case, x64=False,
+                 counts={"quick": 96, "thorough": 2000}, shards={"quick": 8, "thorough": 16}, clear_every=60,
+                 min_nontrivial_frac=0.3,
+                 doc="the same oracle in the library's default 32-bit precision (tolerance 1e-3 relative)"),
         SubCheck(name="large_batches", mode="given", strategy=strat_big, run_case=run_case,
                  counts={"quick": 36, "thorough": 600}, shards={"quick": 12, "thorough": 16}, clear_every=6,
                  min_nontrivial_frac=0.3,
